@@ -368,6 +368,12 @@ OnDropH(mon, ev) ==
       m1 == [mon EXCEPT !.hs = Put(@, ev.h, [a |-> ev.a, k |-> "dead"])]
   IN  IF ev.k = "s" THEN UpdA(m1, ev.a, [userStrong |-> A.userStrong - 1]) ELSE m1
 
+OnErase(mon, ev) ==
+  LET A == ActOf(mon, ev.a) IN
+  IF ev.h2 = 0 THEN mon
+  ELSE LET m1 == [mon EXCEPT !.hs = Put(@, ev.h2, [a |-> ev.a, k |-> ev.k])]
+       IN  IF ev.k = "s" THEN UpdA(m1, ev.a, [userStrong |-> A.userStrong + 1]) ELSE m1
+
 OnDown(mon, ev) == [mon EXCEPT !.hs = Put(@, ev.h2, [a |-> ev.a, k |-> "w"])]
 
 OnUp(mon, ev) ==
@@ -443,6 +449,7 @@ MonStep(mon, ev) ==
     [] ev.e = "Clone"      -> OnClone(mon, ev)
     [] ev.e = "DropH"      -> OnDropH(mon, ev)
     [] ev.e = "Down"       -> OnDown(mon, ev)
+    [] ev.e = "Erase"      -> OnErase(mon, ev)
     [] ev.e = "Up"         -> OnUp(mon, ev)
     [] ev.e = "Alive"      -> OnAlive(mon, ev)
     [] ev.e = "Ident"      -> OnIdent(mon, ev)
